@@ -3,3 +3,4 @@ pub mod print;
 pub mod wt;
 pub mod mutate;
 pub mod tok;
+pub mod rewrite;
